@@ -211,6 +211,8 @@ pub struct WorldCfg {
     pub fault: Fault,
     pub password: Option<(String, PasswordVerdict)>,
     pub art: Option<ArtStore>,
+    /// lines the listing commands (playlistinfo, playlistid, currentsong, find, listplaylistinfo, listallinfo) answer with
+    pub listing: Option<Vec<(String, String)>>,
 }
 
 impl WorldCfg {
@@ -232,6 +234,7 @@ impl WorldCfg {
             fault: Fault::None,
             password: None,
             art: None,
+            listing: None,
         }
     }
 }
@@ -775,6 +778,7 @@ impl World {
             "addid" => Ok(frame1("Id", token(&arg(0)))),
             "sticker" if arg(0) == "get" => Ok(frame1("sticker", format!("{}={}", arg(3), token(&arg(3))))),
             "count" => Ok(AFrame { fields: vec![("songs".into(), format!("{}", filter_token(&arg(0)))), ("playtime".into(), "0".into())], binary: None }),
+            "playlistinfo" | "playlistid" | "currentsong" | "find" | "listplaylistinfo" | "listallinfo" if g.cfg.listing.is_some() => Ok(AFrame { fields: g.cfg.listing.clone().unwrap(), binary: None }),
             "listplaylistinfo" => Ok(frame1("file", arg(0))),
             "status" => {
                 g.status_counter += 1;
